@@ -51,7 +51,9 @@ def run_stress(spec, col: Collector):
             break
         no = spec["shard_no"]
         cap = rng.choice([4096, 20000, 65536])
-        sspec = {"seed": f"{spec['seed']}/{spec['shard']}/{i}", "tmp": tempfile.mkdtemp(prefix=f"v08s{no}-"), "prefix": f"vs{PROP[2]}{no:x}{i % 256:02x}", "port": 25000 + (0 if PROP == "C08" else 400) + no * 20 + (i % 8),
+        from vlib.common import ports
+        block, base = ports.acquire()
+        sspec = {"seed": f"{spec['seed']}/{spec['shard']}/{i}", "tmp": tempfile.mkdtemp(prefix=f"v08s{no}-"), "prefix": f"vs{block:03x}", "port": base + 5,
                  "capacity": cap, "clients": rng.randint(2, 8), "ops": spec["ops"], "sizes": [s_ for s_ in [10, 40, 200, 1000, 4096, 6000, 30000] if s_ <= cap], "max_s": 60, "keys": 0}
         fd, path = tempfile.mkstemp(prefix="v08spec", suffix=".json")
         with os.fdopen(fd, "w") as f:
@@ -73,6 +75,7 @@ def run_stress(spec, col: Collector):
         finally:
             os.unlink(path)
             import shutil
+            ports.release(block)
             shutil.rmtree(sspec["tmp"], ignore_errors=True)
         res = None
         for ln in out.splitlines():
@@ -134,5 +137,5 @@ def plan(tier, seed, scale=1.0):
     n, copies, ops = (60, 8, 400) if q else (1500, 16, 2000)
     return [dict(shard=f"m{c}", n=int(n * scale), max_ops=ops, prop=PROP, budget_s=60 if q else 900, timeout_s=180 if q else 1500,
                  hash_seed=(seed * 41 + c) % 4294967295) for c in range(copies)] + [
-        dict(kind="stress", shard=f"x{c}", shard_no=c, n=max(1, int((1 if q else 6) * scale)), ops=120 if q else 400, budget_s=100 if q else 1200, timeout_s=250 if q else 1800)
+        dict(kind="stress", phase=1, shard=f"x{c}", shard_no=c, n=max(1, int((1 if q else 6) * scale)), ops=120 if q else 400, budget_s=100 if q else 1200, timeout_s=250 if q else 1800)
         for c in range(2 if q else 6)]
